@@ -273,7 +273,9 @@ class Client(BaseComponent):
             if nbytes < len(data):
                 self._buffer.appendleft(data[nbytes:])
         except OSError as e:
-            if e.args[0] in (EPIPE, ENOTCONN):
+            if e.args[0] in (EAGAIN, EWOULDBLOCK, EINTR, ENOBUFS):
+                self._buffer.appendleft(data)
+            elif e.args[0] in (EPIPE, ENOTCONN):
                 self._close()
             else:
                 self.fire(error(e))
